@@ -14,6 +14,7 @@ from here, regenerated on every run and fail-closed (GenError -> committed basel
 """
 import ast, struct, re, uuid
 from common import *
+import failclosed
 
 SRC = 'oslo_utils/imageutils/format_inspector.py'
 
@@ -115,6 +116,111 @@ CLASS_CONSTS = {
 }
 PREFIX = {'QcowInspector': 'QCOW', 'VHDXInspector': 'VHDX', 'VMDKInspector': 'VMDK', 'GPTInspector': 'GPT'}
 
+# ------------------------------------------------------------------ fail-closed tables (tools/gen/failclosed.py)
+# Every inspector class must be the one direct FileInspector subclass bound to its name, define exactly these methods (an override of
+# an engine method - eat_chunk, _capture, finish, complete, safety_check, ... - is unmodelled behaviour), each with exactly these
+# decorators; the second component is the statement skeleton the hand-written model (Model/Insp_*.v) was transcribed from, checked
+# by generate_code so that a change of shape does not cost the regenerated constants of generate().
+INSPECTOR_METHODS = {
+    'RawFileInspector': {
+        '_initialize': ([], 'a6cbc4a349820104'), 'format_match': (['property'], '698242c1c40b3535')},
+    'QcowInspector': {
+        '_initialize': ([], '1b383174bb8dc61f'), 'region_complete': ([], '9f08deb78c2e078b'),
+        'virtual_size': (['property'], '5efee4fc17b985e0'), 'format_match': (['property'], '8441d70a914078f7'),
+        'check_backing_file': ([], '5138acea308abd34'), 'check_unknown_features': ([], '2680008957f2617a'),
+        'check_data_file': ([], '733b8aeb1ae05c81')},
+    'QEDInspector': {
+        '_initialize': ([], '98220601bd00dacd'), 'format_match': (['property'], '4ba046f780cb0c77')},
+    'VHDInspector': {
+        '_initialize': ([], '80f0fb4db2a8c41d'), 'format_match': (['property'], '9abf7ba753a7efdf'),
+        'virtual_size': (['property'], 'fdc6e6d9a05f214d')},
+    'VHDXInspector': {
+        '_initialize': ([], '0c68e8c5d3e67d18'), 'post_process': ([], '22fb53c168187e96'),
+        'format_match': (['property'], '9abf7ba753a7efdf'), '_guid': (['staticmethod'], 'a0b28b93fd190586'),
+        '_find_meta_region': ([], 'd7a183400c64db06'), '_find_meta_entry': ([], 'fa1aced254c24e50'),
+        'virtual_size': (['property'], 'f3c9c127907c2c28')},
+    'VMDKInspector': {
+        '_initialize': ([], 'e5ad36333d261cd1'), '_parse_sparse_header': ([], '8d54632b6479ae19'),
+        'post_process': ([], '5f97b0c85da3ebaa'), 'region_complete': ([], 'a98dece2fa424b5a'),
+        '_parse_descriptor': ([], '2d2c26e59ba166d6'), 'format_match': (['property'], 'b24ed93a00671af6'),
+        'virtual_size': (['property'], '16f9eeacad81dcfc'), 'check_descriptor': ([], 'c7a34dc4b3681103'),
+        'check_footer': ([], '6bd82cab7a1bdac0')},
+    'VDIInspector': {
+        '_initialize': ([], '80f0fb4db2a8c41d'), 'format_match': (['property'], '52e386f6797f24e9'),
+        'virtual_size': (['property'], '2f3709541c421fb2')},
+    'ISOInspector': {
+        '_initialize': ([], '38f7cc1f6c787a40'), 'format_match': (['property'], 'e8c79a3fe498b678'),
+        'virtual_size': (['property'], 'b538cd68706f3514')},
+    'GPTInspector': {
+        '_initialize': ([], 'eded039444b8fd85'), '_check_for_fat': ([], 'cf9aed064d2c4a32'),
+        'format_match': (['property'], '706f9867c38cc426'), 'check_mbr_partitions': ([], '4e233535873e523c')},
+    'LUKSInspector': {
+        '_initialize': ([], '8d856e9cde8e43c8'), 'format_match': (['property'], '3c0af7d84076db97'),
+        'header_items': (['property'], 'b9e628f84e6872ba'), 'check_version': ([], '419abe30a3fbc7ce'),
+        'virtual_size': (['property'], '312893357603e819')},
+}
+# The engine the model transcribes: class -> (bases, {method: (decorators, defaults, skeleton, non-string constants)})
+_A = failclosed.ANY
+ENGINE = {
+    'CaptureRegion': ([], {
+        '__init__': ([], {'min_length': 'None'}, '5cc3ea741b77b4d2', [None, b'']),
+        'complete': (['property'], {}, '8e6683539cae7f02', [None]),
+        'capture': ([], {}, 'ce6a6e171cb4656a', []),
+    }),
+    'EndCaptureRegion': (['CaptureRegion'], {
+        '__init__': ([], {}, '76fede27cae2ac3b', [False]),
+        'capture': ([], {}, 'da290446bf6ad820', [0]),
+        'complete': (['property'], {}, '4d73b81e3e12b6f8', []),
+        'finish': ([], {}, '708feb17efefd3f8', [True]),
+    }),
+    'SafetyCheck': ([], {
+        '__init__': ([], {'description': 'None'}, '2463daceb4d534ef', [None]),
+        '__call__': ([], {}, 'bd98d5c850537186', [_A, _A]),
+        'null': (['classmethod'], {}, '348922ee3040566d', [_A, None, _A]),
+        'banned': (['classmethod'], {}, 'b46dca1b3eecea31', [_A, _A, _A]),
+    }),
+    'SafetyCheckFailed': (['Exception'], {
+        '__init__': ([], {}, 'c2e113e4647d6b71', [_A, _A]),
+    }),
+    'FileInspector': (['abc.ABC'], {
+        '__init__': ([], {'tracing': 'False'}, '428e800ec93c0a92', [False, 0, False, _A]),
+        '_trace': ([], {}, 'e48d4e39622108dd', []),
+        '_initialize': (['abc.abstractmethod'], {}, '39a7592ea4d65212', []),
+        'finish': ([], {}, '163e87f09f73eae9', [True]),
+        '_capture': ([], {'only': 'None'}, '04fde0325eda829a', [None, _A]),
+        'eat_chunk': ([], {}, '83d6f5c41eb72c2a', []),
+        'post_process': ([], {}, 'fa4d977ecfa67085', []),
+        'region': ([], {}, '82788b5b4078c5fb', []),
+        'region_name': ([], {}, '7b27cd0fb85a3a92', [_A]),
+        'new_region': ([], {}, '76a05d30b2fc36a3', [_A]),
+        'has_region': ([], {}, '94aa1cdbc2b94b42', []),
+        'delete_region': ([], {}, '79c43e2e60cb28c5', []),
+        'region_complete': ([], {}, '59d58eaa6063c3ab', []),
+        'add_safety_check': ([], {}, 'e5a381d6edaf9c0b', [_A, _A]),
+        'format_match': (['property', 'abc.abstractmethod'], {}, 'b7eb781ae097a878', []),
+        'virtual_size': (['property'], {}, '41123da5766c809b', []),
+        'actual_size': (['property'], {}, 'bf25d4eec560f554', []),
+        'complete': (['property'], {}, 'e80e076548e40012', []),
+        '__str__': ([], {}, '08f40b2fdd063b1b', []),
+        'context_info': (['property'], {}, 'b63d1494311c70f0', []),
+        'from_file': (['classmethod'], {}, '4d1c03d02735b565', [_A, _A]),
+        'safety_check': ([], {}, '3a49a4f35a0f313c', [_A, _A, None, _A, _A]),
+    }),
+}
+_MOD = 'oslo_utils.imageutils.format_inspector'
+FAILCLOSED = {
+    'generate': [{'src': SRC, 'mod': _MOD,
+                  'classes': {c: {'bases': ['FileInspector'], 'methods': list(ms)} for c, ms in INSPECTOR_METHODS.items()},
+                  'functions': {c + '.' + m: {'decorators': d} for c, ms in INSPECTOR_METHODS.items() for m, (d, _) in ms.items()},
+                  'constants': ['ALL_FORMATS'], 'imports': {'struct': 'struct'}}],
+    'generate_code': [{'src': SRC, 'mod': _MOD,
+                       'classes': dict([(c, {'bases': b, 'methods': list(ms)}) for c, (b, ms) in ENGINE.items()] +
+                                       [(c, {'bases': ['FileInspector'], 'methods': list(ms)}) for c, ms in INSPECTOR_METHODS.items()]),
+                       'functions': {c + '.' + m: {'decorators': d, 'defaults': df} for c, (_, ms) in ENGINE.items() for m, (d, df, _, _) in ms.items()},
+                       'shapes': dict([(c + '.' + m, (s, cs)) for c, (_, ms) in ENGINE.items() for m, (_, _, s, cs) in ms.items()] +
+                                      [(c + '.' + m, (s, None)) for c, ms in INSPECTOR_METHODS.items() for m, (_, s) in ms.items()]),
+                       'imports': {'struct': 'struct', 'abc': 'abc'}}]}
+
 def _ident(s):
     if not re.fullmatch(r'[A-Za-z_][A-Za-z0-9_]*', s): raise GenError('name %r is not an identifier' % s)
     return s
@@ -151,8 +257,12 @@ def _methods(cls):
     return {f.name: f for f in cls.body if isinstance(f, ast.FunctionDef)}
 
 def generate():
+    failclosed.check_all(FAILCLOSED['generate'])
     m = repo_import('oslo_utils.imageutils.format_inspector')
     tree = repo_ast(SRC)
+    for k, cls in m.ALL_FORMATS.items():
+        if vars(m).get(getattr(cls, '__name__', None)) is not cls or cls.__name__ not in INSPECTOR_METHODS:
+            raise GenError('ALL_FORMATS[%r] is not one of the module-level inspector classes the model knows' % (k,))
     out = [HEADER % (SRC, 'tools/gen/gen_insp.py')]
     out.append('Require Import OV.Base.Bytes OV.Base.Insp_Struct.')
     out.append('Open Scope N_scope.')
@@ -328,6 +438,7 @@ def generate():
 def generate_code():
     import py2gal
     from py2gal import Fn
+    failclosed.check_all(FAILCLOSED['generate_code'])
     tree = repo_ast(SRC)
     parts = [HEADER % (SRC, 'tools/gen/gen_insp.py (py2gal)'),
              'Require Import OV.Base.Bytes OV.Base.Py.\nOpen Scope Z_scope.\n']
